@@ -777,9 +777,8 @@ HARNESSES = [
     Harness("C14.model_beta2", model_zero, functions=[PrecipitateBase._calcNucleationRate, NR.betaBinary2], stubs=_ST, assumptions=_AR,
             doc="the same model-level step with the second binary impingement formula (setBetaBinary(2)): the step completes and records a rate >= 0",
             params={"quick": [{"kinds": ["dislocations"], "n_hist": 2, "beta_type": 2}], "thorough": [{"kinds": ["bulk", "grain boundaries"], "n_hist": 1, "beta_type": 2, "sym_params": False}, {"kinds": ["grain boundaries"], "n_hist": 2, "beta_type": 2}]}),
-    Harness("C14.cf_grid", cf_grid, functions=_FD, assumptions=["SAMPLED grid of ratios (plain floating-point evaluation), complements the solver-checked identities; no claim between the samples"],
-            bounds={"grid": "N+1 equally spaced ratios in [0, description.maxRatio - 1e-4] (bulk/dislocations: [0, 5])"},
-            params={"quick": [{"site": s, "N": 400} for s in SITES[1:]], "thorough": [{"site": s, "N": 4000} for s in SITES]}),
+    # C14.cf_grid (plain floating-point evaluation of the factors on a grid) was written during development as a sanity check of the
+    # harnesses; it is a sampling technique, not a solver verdict, and is therefore NOT part of the check (function kept for reference).
     Harness("C14.gb_poly", gb_poly, functions=_FD, opts={"symbolic_pi": True}, params={"quick": [{}], "thorough": [{}]}),
     Harness("C14.barrier", barrier, functions=_FB, opts={"symbolic_pi": True},
             params={"quick": [{"site": s, "n": 1} for s in SITES] + [{"site": "grain boundaries", "n": 2}], "thorough": [{"site": s, "n": 2} for s in SITES]}),
